@@ -42,3 +42,13 @@ for id in C05 C01; do $E $id rename-structbranch-locals generator/model.go 's/\b
 for id in C03 C04; do $E $id rename-responses-locals generator/templates/server/responses.gotmpl 's/\bhv\b/value/g' 's/\brw\b/w/g' 's/\bpayload\b/content/g'; done
 # re-indentation of template text (generated code is gofmt'ed: whitespace-only change)
 for spec in "C03:generator/templates/server/parameter.gotmpl" "C04:generator/templates/client/parameter.gotmpl" "C04:generator/templates/client/response.gotmpl" "C05:generator/templates/serializers/additionalpropertiesserializer.gotmpl" "C05:generator/templates/serializers/tupleserializer.gotmpl" "C06:generator/templates/server/builder.gotmpl" "C06:generator/templates/server/operation.gotmpl" "C08:generator/templates/server/builder.gotmpl" "C09:generator/templates/server/operation.gotmpl" "C01:generator/templates/server/main.gotmpl" "C02:generator/templates/schemavalidator.gotmpl"; do id=${spec%%:*}; f=${spec#*:}; n=$(basename $f .gotmpl); $E $id reindent-$n $f 's/^  \( *[^ {]\)/\t\1/' 's/^    \( *[^ {]\)/\t\t\1/' 's/ *$//'; done
+# round 7: equivalent spellings of the constructs the round-7 rules look at
+for id in C07 C15; do $E $id comparator-locals cmd/swagger/commands/diff/spec_analyser.go 's/^\t\treturn sd.Diffs\[i\].String() < sd.Diffs\[j\].String()$/\t\tleft, right := sd.Diffs[i].String(), sd.Diffs[j].String()\n\t\treturn left < right/'; done
+$E C19 println-format-test cmd/swagger/commands/expand.go 's/^\t\tif asJSON {$/\t\tif format == "json" {/'
+$E C11 lenient-decoder generator/types.go 's/^\terr := mapstructure.Decode(v, &extType)$/\tdecoder, err := mapstructure.NewDecoder(\&mapstructure.DecoderConfig{Result: \&extType})\n\tif err == nil {\n\t\terr = decoder.Decode(v)\n\t}/'
+for id in C07 C12; do $E $id rename-sortednames-locals cmd/swagger/commands/diff/checks.go 's/\bnames\b/keys/g' 's/\bprops PropertyMap\b/all PropertyMap/' 's/len(props)/len(all)/' 's/range props {/range all {/'; done
+for id in C07 C08; do $E $id rename-parammappings-locals generator/operation.go 's/\bprevious\b/earlier/g' 's/\bseenIDs\b/taken/g' 's/\bidMapping\b/goNames/g'; done
+$E C12 nil-test-after-resolution cmd/swagger/commands/diff/type_adapters.go 's/^\t\tif schema == nil {$/\t\tif nil == schema {/'
+$E C15 rename-readignores-locals cmd/swagger/commands/diff.go 's/\bignoreDiffs\b/entries/g' 's/\bbyteValue\b/raw/g' 's/\bjsonFile\b/fh/g'
+$E C09 rename-padcomment-locals generator/template_repo.go 's/\bfor i, line := range lines\b/for n, text := range lines/' 's/strings.HasPrefix(line, "+build")/strings.HasPrefix(text, "+build")/' 's/lines\[i\] = "\[+\]" + strings.TrimPrefix(line, "+")/lines[n] = "[+]" + strings.TrimPrefix(text, "+")/'
+$E C10 rename-flatten-locals generator/spec.go 's/\bspecDoc\b/document/g'
